@@ -371,7 +371,10 @@ def board_trace(job) -> List[Dict[str, Any]]:
             trick = []
         if k == 0:
             for o in obs:
-                if o.me != dummy:
+                # the observer in dummy's seat is shown "dummy's cards" too in every
+                # 3rd board (a table manager that tells everybody; the bundled
+                # client skips the message for this seat)
+                if o.me != dummy or hsum % 3 == 1:
                     evs.append(ev_setdummy(tid, o, sorted(hands[dummy])))
         if obs:
             evs.append({'tid': tid, 'ev': 'agree', 'o': 0})
